@@ -31,7 +31,7 @@ package satisfaction
 // ---- the heuristic's building blocks (C13)
 
 //@ func isGoodEnough
-//@   property C13 C01 C09
+//@   property C13 C01 C09 C14
 //@   ensures [meets_every_threshold] result <==> forall k int :: 0 <= k && k < len(*thresholds) ==> model.signed(alternative, (*thresholds)[k].Criterion) >= model.mult((*thresholds)[k].Criterion) * (*thresholds)[k].Weight
 //@   loop 1 invariant [so_far] forall k int :: 0 <= k && k < iter ==> model.signed(alternative, (*thresholds)[k].Criterion) >= model.mult((*thresholds)[k].Criterion) * (*thresholds)[k].Weight
 
@@ -40,7 +40,7 @@ package satisfaction
 //@   && r.Evaluation.(SatisfactionEvaluation).ThresholdsIndex == level && r.Evaluation.(SatisfactionEvaluation).SatisfiedThresholds == thresholds
 
 //@ func updateResult
-//@   property C13 C01 C09
+//@   property C13 C01 C09 C14
 //@   requires 0 <= resultInsertIndex && resultInsertIndex < len(result) && resultInsertIndex < len(resultIds)
 //@   assigns result, resultIds
 //@   ensures [slot_written] acceptedAt(result[resultInsertIndex], alternative, alternativeValue, *thresholds) && resultIds[resultInsertIndex] == alternative.Id
@@ -73,7 +73,7 @@ package satisfaction
 //@      (x.Id == current.Id && y.Id != current.Id) || exists i int, j int :: 0 <= i && i < j && j < len(considered) && considered[i].Id == x.Id && considered[j].Id == y.Id
 
 //@ func checkWithinSatisfactionLevels
-//@   property C13 C01 C09
+//@   property C13 C01 C09 C14
 //@   requires [distinct_search_order] distinctIds(considered) && forall j int :: 0 <= j && j < len(considered) ==> considered[j].Id != current.Id
 //@   ensures [every_alternative_once] fresh(result1) && fresh(result2) && len(result1) == 1 + len(considered) && len(result2) == 1 + len(considered)
 //@             && 0 <= result3 && result3 + len(result0) == 1 + len(considered) && distinctIds(result0)
@@ -119,7 +119,7 @@ package satisfaction
 // the alternatives that met no level: appended after the accepted ones, in order, with the index after the last level and
 // the fallback thresholds
 //@ func fillRemainingAlternatives
-//@   property C13 C01 C09
+//@   property C13 C01 C09 C14
 //@   fnparam lowestThresholdSup pure
 //@   requires 0 <= resultInsertIndex && resultInsertIndex + len(leftToChoice) <= len(result) && resultInsertIndex + len(leftToChoice) <= len(resultIds)
 //@   assigns result, resultIds
